@@ -48,3 +48,18 @@ def f13_partial_alias(v):
     if m is None:
         return False
     return partial_alias_shape(core.detuple(m))
+
+
+def f16_alias_captured(v):
+    """An event whose own alias is also the variable of a quantifier inside its predicate (finding F16)."""
+    inp = v.input
+    m = inp.get('m') if isinstance(inp, dict) else None
+    if m is None:
+        return False
+    m = core.detuple(m)
+    for _role, ev in mast.event_positions(m):
+        for e in mast.simple_events(ev):
+            if e[2] is not None and e[3] is not None:
+                if any(n[0] == 'q' and n[2] == e[2] for n in mast.walk(e[3])):
+                    return True
+    return False
